@@ -8,3 +8,6 @@ fn __o_min_len(a: usize, b: usize) -> (r: usize) ensures r == (if a <= b { a } e
 // std Result::and: the argument has already been evaluated; the first Err wins
 #[verifier::external_body]
 fn __o_result_and<T, E, U>(a: Result<T, E>, b: Result<U, E>) -> (r: Result<U, E>) ensures r == (match a { Ok(_) => b, Err(e) => Err(e) }) { a.and(b) }
+// slice -> Vec conversion (`.into()` / `.to_vec()` on &[Term]): vstd gives no spec, the textbook one is ASSUMED
+#[verifier::external_body]
+fn __o_slice_to_vec(s: &[Term]) -> (r: Vec<Term>) ensures r@ == s@ { s.into() }
